@@ -155,6 +155,20 @@ PROPS = {
                    "every reader of a cached block yields the identical bytes from the start, a further content access on an uncached block fails with the explicit error. Correspondence on blocks built directly over cached / one-shot sources and on blocks of built and parsed records",
         level_note="Trusted: Lean kernel, correspondence harness (blocks are constructed through an overlay export). Modelled by hand: block.go, httpblock.go accessor logic.",
     ),
+    "C20": dict(
+        title="Revisit creation and merge are mutually consistent",
+        lean_modules=["Gowarc.Props.C20"],
+        n_quick=3000, n_thorough=15000,
+        required_theorems=["C20_revisit", "C20_ref_fields", "C20_payload_digest", "C20_merge", "C20_roundtrip", "C20_merge_refuses", "C20_no_ref_of_revisit", "toRevisit_ok"],
+        model_assumptions=["http.ReadResponse / http.ReadRequest acceptance of the protocol header is the oracle Ω.http, evaluated by the implementation per case",
+                           "the hash is abstract in the theorems (H); the driver runs real MD5/SHA implementations",
+                           "the merged Content-Length theorem is stated over the parsed integer of the original's field (contentLengthOf); decimal rendering is intToDec on both sides"],
+        design_ref="DESIGN.md section 5, C20",
+        level_text="Model of ToRevisitRecord / CreateRevisitRef / Merge over header fields and block bytes; theorems for every original, profile and reference: the revisit's block is exactly the original's protocol header, type revisit, Content-Length and WARC-Block-Digest "
+                   "describe that block, reference fields and the payload digest are carried; Merge returns the revisit's header bytes followed by the original's payload with a truthful Content-Length, the original's type in both Type() and WARC-Type, and no reference fields; "
+                   "round trip revisit→merge restores the original's block. Correspondence drives the real functions (including serialize + strict re-parse of the revisit) with a clause-by-clause oracle",
+        level_note="Trusted: Lean kernel, correspondence harness. Modelled by hand: record.go ToRevisitRecord/CreateRevisitRef/Merge, revisitblock.go.",
+    ),
 }
 
 
